@@ -51,78 +51,73 @@ Proof.
   - discriminate.
 Qed.
 
-Lemma stereo_of_errors sb n m b e : stereo_of sb n m b = Err e -> e = KeyError.
+Lemma popitem_nonempty {V} (d : list (Z * V)) : nonempty d = true -> exists d' v, popitem d = Some (d', v).
 Proof.
-  unfold stereo_of. destruct (zget sb n) as [dn|]; [|discriminate]. destruct (zget sb m) as [dm0|]; [|discriminate].
-  destruct (negb _); [discriminate|].
-  destruct (zmem m (keys dn)); [discriminate|]. destruct (popitem dn) as [[dn' s1]|]; [|intros H; inversion H; reflexivity].
-  destruct (zget _ m) as [dm|]; [|intros H; inversion H; reflexivity].
-  destruct (popitem dm) as [[dm' s2]|]; [discriminate|intros H; inversion H; reflexivity].
+  unfold popitem. intros H. destruct (rev d) as [|[k v] r] eqn:E.
+  - assert (d = []) by (rewrite <- (rev_involutive d), E; reflexivity). subst. discriminate.
+  - eexists; eexists; reflexivity.
+Qed.
+Lemma zget_zset_other {V} (d : list (Z * V)) k k' v : k' <> k -> zget (Parser.zset d k v) k' = zget d k'.
+Proof.
+  intros H. induction d as [|[k0 v0] r IH]; cbn.
+  - destruct (k' =? k) eqn:E; [apply Z.eqb_eq in E; congruence | reflexivity].
+  - destruct (k =? k0) eqn:E; cbn.
+    + apply Z.eqb_eq in E. subst. destruct (k' =? k0) eqn:E2; [apply Z.eqb_eq in E2; congruence | reflexivity].
+    + destruct (k' =? k0); [reflexivity | exact IH].
 Qed.
 
-Lemma bonds_loop_errors bs : forall sb seen e n0, Forall (SmartsParser.bwf n0) bs -> bonds_loop sb bs seen = Err e ->
-  vee e = true \/ e = KeyError.
+(* the cis/trans handling never raises (code after the fixes: both mark dictionaries are non-empty and distinct) *)
+Lemma stereo_of_total sb n m b : exists r, stereo_of sb n m b = Ok r.
+Proof.
+  unfold stereo_of. destruct (zget sb n) as [dn|] eqn:En; [|eexists; reflexivity].
+  destruct (zget sb m) as [dm0|] eqn:Em; [|eexists; reflexivity].
+  destruct (negb (n =? m) && nonempty dn && nonempty dm0 && can_double b) eqn:C; cbn [negb]; [|eexists; reflexivity].
+  apply andb_true_iff in C. destruct C as [C _]. apply andb_true_iff in C. destruct C as [C C3].
+  apply andb_true_iff in C. destruct C as [C1 C2]. apply negb_true_iff in C1. apply Z.eqb_neq in C1.
+  destruct (zmem m (keys dn)); [eexists; reflexivity|].
+  destruct (popitem_nonempty dn C2) as [dn' [s1 ->]].
+  rewrite zget_zset_other by congruence. rewrite Em.
+  destruct (popitem_nonempty dm0 C3) as [dm' [s2 ->]]. eexists; reflexivity.
+Qed.
+
+Lemma bonds_loop_errors bs : forall sb seen e n0, Forall (SmartsParser.bwf n0) bs -> bonds_loop sb bs seen = Err e -> vee e = true.
 Proof.
   induction bs as [|[[n m] b] r IH]; intros sb seen e n0 Hb; cbn [bonds_loop]; [discriminate|].
   inversion Hb as [|? ? H1 H2]; subst. destruct H1 as [_ [_ Hi]].
-  destruct (stereo_of sb n m b) as [[st sb']|e1] eqn:E1; [|intros H; inversion H; subst; right; eapply stereo_of_errors; exact E1].
-  destruct (qbond_of_payload b) as [q|e2] eqn:E2; [|intros H; inversion H; subst; left; rewrite (qbond_of_payload_errors _ _ Hi E2); reflexivity].
-  destruct (n =? m); [intros H; inversion H; left; reflexivity|].
-  destruct (existsb _ seen); [intros H; inversion H; left; reflexivity|].
+  destruct (stereo_of_total sb n m b) as [[st sb'] ->].
+  destruct (qbond_of_payload b) as [q|e2] eqn:E2; [|intros H; inversion H; subst; rewrite (qbond_of_payload_errors _ _ Hi E2); reflexivity].
+  destruct (n =? m); [intros H; inversion H; reflexivity|].
+  destruct (existsb _ seen); [intros H; inversion H; reflexivity|].
   destruct (bonds_loop sb' r _) as [l|e3] eqn:E3; [discriminate|]. intros H; inversion H; subst. eapply IH; eassumption.
 Qed.
 
-(* smarts(): for EVERY text, a query, or IncorrectSmiles / IncorrectSmarts / ValueError, or - only out of the cis/trans
-   handling (popitem on a mark dictionary that an earlier bond emptied) - KeyError *)
-Theorem smarts_full_errors s e : smarts_full s = Err e -> vee e = true \/ e = KeyError.
+(* smarts_total for the WHOLE of smarts(): for EVERY text a query, or IncorrectSmiles / IncorrectSmarts / ValueError *)
+Theorem smarts_full_total s e : smarts_full s = Err e -> vee e = true.
 Proof.
-  unfold smarts_full, full_of_tokens. destruct (String.eqb s "") eqn:Es; [intros H; inversion H; left; reflexivity|].
+  unfold smarts_full, full_of_tokens. destruct (String.eqb s "") eqn:Es; [intros H; inversion H; reflexivity|].
   apply String.eqb_neq in Es.
-  pose proof (tokenize_raw_good s) as G. destruct (tokenize_raw s) as [ts|e0]; [|intros H; inversion H; subst; left; exact G].
+  pose proof (tokenize_raw_good s) as G. destruct (tokenize_raw s) as [ts|e0]; [|intros H; inversion H; subst; exact G].
   destruct G as [G1 G2]. pose proof (split_tokens_good ts G1) as S.
-  destruct (split_tokens ts) as [[toks ps]|e1]; [|intros H; inversion H; subst; left; exact S].
+  destruct (split_tokens ts) as [[toks ps]|e1]; [|intros H; inversion H; subst; exact S].
   destruct S as [S1 S2].
   assert (Hne : toks <> []). { intros ->. specialize (G2 Es). destruct ts; [congruence | discriminate]. }
   pose proof (SmartsParser.parse_good toks false S1 Hne) as P.
-  destruct (Parser.parse toks false) as [pr|e2]; [|intros H; inversion H; subst; left; exact P].
+  destruct (Parser.parse toks false) as [pr|e2]; [|intros H; inversion H; subst; exact P].
   destruct P as [_ P2].
-  destruct (atoms_loop ps []) as [atoms|e3] eqn:E3; [|intros H; inversion H; subst; left; eapply atoms_loop_errors; exact E3].
+  destruct (atoms_loop ps []) as [atoms|e3] eqn:E3; [|intros H; inversion H; subst; eapply atoms_loop_errors; exact E3].
   destruct (bonds_loop _ _ []) as [bonds|e4] eqn:E4; [discriminate|]. intros H; inversion H; subst.
   eapply bonds_loop_errors; eassumption.
 Qed.
 
-(* the full statement (never anything but a ValueError-class exception) is FALSE for the unchanged code (after fix f821fac
-   only for a ring closure that closes on its own atom next to one direction mark: both popitem() hit the same dictionary) *)
-Theorem smarts_full_total_refuted :
-  smarts_full "F/C=1=1" = Err KeyError /\ smarts_full "F/C1=1" = Err KeyError.
-Proof. vm_compute. split; reflexivity. Qed.
-
-(* it holds for every text whose parse has no direction marks left to consume *)
-Theorem smarts_full_total_partial s e :
-  (forall ts toks ps pr, tokenize_raw s = Ok ts -> split_tokens ts = Ok (toks, ps) -> Parser.parse toks false = Ok pr ->
-     Parser.p_stereo_bonds pr = []) ->
-  smarts_full s = Err e -> vee e = true.
-Proof.
-  intros Hn H. destruct (smarts_full_errors s e H) as [V| ->]; [exact V|]. exfalso. revert H.
-  unfold smarts_full, full_of_tokens. destruct (String.eqb s ""); [discriminate|].
-  pose proof (tokenize_raw_good s) as G.
-  destruct (tokenize_raw s) as [ts|e0]; [|intros X; inversion X; subst; discriminate G].
-  destruct G as [G1 _]. pose proof (split_tokens_good ts G1) as S.
-  destruct (split_tokens ts) as [[toks ps]|e1] eqn:Es; [|intros X; inversion X; subst; discriminate S].
-  destruct (Parser.parse toks false) as [pr|e2] eqn:Ep.
-  2:{ intros X; inversion X; subst. destruct S as [S1 S2]. destruct toks as [|t0 tr]; [cbn in Ep; discriminate|].
-      pose proof (SmartsParser.parse_good (t0 :: tr) false S1 ltac:(discriminate)) as P. rewrite Ep in P. discriminate P. }
-  rewrite (Hn ts toks ps pr eq_refl Es Ep).
-  destruct (atoms_loop ps []) as [atoms|e3] eqn:E3; [|intros X; inversion X; subst; apply atoms_loop_errors in E3; discriminate].
-  assert (K : forall bs seen, bonds_loop [] bs seen <> Err KeyError).
-  { induction bs as [|[[n m] b] r IH]; intros seen; cbn [bonds_loop]; [discriminate|].
-    cbn [stereo_of zget]. destruct (qbond_of_payload b) as [q|e2] eqn:E2.
-    - destruct (n =? m); [discriminate|]. destruct (existsb _ seen); [discriminate|].
-      specialize (IH ((n, m) :: seen)). destruct (bonds_loop [] r _) as [l|e']; [discriminate|]. intros X; inversion X; subst. congruence.
-    - intros X; inversion X; subst. destruct b; cbn in E2; try discriminate;
-        repeat match goal with H : context [if ?c then _ else _] |- _ => destruct c end; discriminate. }
-  destruct (bonds_loop [] _ []) as [bonds|e4] eqn:E4; [discriminate|]. intros X; inversion X; subst. exact (K _ _ E4).
-Qed.
+(* the texts that crashed in earlier trees are rejected with a ValueError-class exception or read *)
+Theorem smarts_full_examples :
+  smarts_full "F/C=1=1" = Err ValueError /\ smarts_full "F/C1=1" = Err ValueError /\
+  (exists r, smarts_full "C/C=C(/C)C(/C)=C/C" = Ok r) /\ (exists r, smarts_full "F/C(=C/F)=C/F" = Ok r) /\
+  smarts_full "" = Err ValueError /\ smarts_full "C/C=,#C/C" =
+    Ok ([(QElem 6 None (mkQX 0 false [] [] [] [] [] false), None); (QElem 6 None (mkQX 0 false [] [] [] [] [] false), None);
+         (QElem 6 None (mkQX 0 false [] [] [] [] [] false), None); (QElem 6 None (mkQX 0 false [] [] [] [] [] false), None)],
+        [mkSB 1 0 (mkQB [1] None) None; mkSB 2 1 (mkQB [2; 3] None) (Some false); mkSB 3 2 (mkQB [1] None) None]).
+Proof. vm_compute. repeat split; try reflexivity; eexists; reflexivity. Qed.
 
 (* ---------------------------------------------------------------------------------------------------------------- *)
 (* CXSMARTS radicals *)
@@ -158,27 +153,26 @@ Proof.
   intros H. apply map_res_err in H. destruct H as [x [_ Hx]]. apply TokenizeProofs.py_int_err in Hx. subst. reflexivity.
 Qed.
 
-(* smarts(smr + ' ' + cx): for EVERY text and EVERY CX block - a query, a ValueError-class exception, or the KeyError of the
-   cis/trans popitem *)
-Theorem smarts_cx_errors s cx e : smarts_cx s cx = Err e -> vee e = true \/ e = KeyError.
+(* smarts(smr + ' ' + cx): for EVERY text and EVERY CX block - a query or a ValueError-class exception *)
+Theorem smarts_cx_total s cx e : smarts_cx s cx = Err e -> vee e = true.
 Proof.
-  unfold smarts_cx. destruct (String.eqb s "") eqn:Es; [intros H; inversion H; left; reflexivity|].
+  unfold smarts_cx. destruct (String.eqb s "") eqn:Es; [intros H; inversion H; reflexivity|].
   apply String.eqb_neq in Es.
-  pose proof (tokenize_raw_good s) as G. destruct (tokenize_raw s) as [ts|e0]; [|intros H; inversion H; subst; left; exact G].
+  pose proof (tokenize_raw_good s) as G. destruct (tokenize_raw s) as [ts|e0]; [|intros H; inversion H; subst; exact G].
   destruct G as [G1 G2]. pose proof (split_tokens_good ts G1) as S.
-  destruct (split_tokens ts) as [[toks ps]|e1]; [|intros H; inversion H; subst; left; exact S].
+  destruct (split_tokens ts) as [[toks ps]|e1]; [|intros H; inversion H; subst; exact S].
   destruct S as [S1 S2].
   assert (Hne : toks <> []). { intros ->. specialize (G2 Es). destruct ts; [congruence | discriminate]. }
   pose proof (SmartsParser.parse_good toks false S1 Hne) as P.
-  destruct (Parser.parse toks false) as [pr|e2]; [|intros H; inversion H; subst; left; exact P].
+  destruct (Parser.parse toks false) as [pr|e2]; [|intros H; inversion H; subst; exact P].
   destruct P as [_ P2].
   destruct (cx_indices cx) as [rads|e5] eqn:E5.
-  2:{ intros H; inversion H; subst. left. unfold cx_indices in E5. destruct cx as [c|]; [|discriminate].
+  2:{ intros H; inversion H; subst. unfold cx_indices in E5. destruct cx as [c|]; [|discriminate].
       destruct (list_ascii_of_string c) as [|a l]; [discriminate|]. 
       destruct a as [[] [] [] [] [] [] [] []]; try discriminate. destruct (rev _) as [|b l']; [discriminate|].
       destruct b as [[] [] [] [] [] [] [] []]; try discriminate. eapply map_res_py_int_errors; exact E5. }
-  destruct (existsb _ rads); [intros H; inversion H; left; reflexivity|].
-  destruct (atoms_loop_rad ps 0 rads []) as [atoms|e3] eqn:E3; [|intros H; inversion H; subst; left; eapply atoms_loop_rad_errors; exact E3].
+  destruct (existsb _ rads); [intros H; inversion H; reflexivity|].
+  destruct (atoms_loop_rad ps 0 rads []) as [atoms|e3] eqn:E3; [|intros H; inversion H; subst; eapply atoms_loop_rad_errors; exact E3].
   destruct (bonds_loop _ _ []) as [bonds|e4] eqn:E4; [discriminate|]. intros H; inversion H; subst.
   eapply bonds_loop_errors; eassumption.
 Qed.
@@ -194,3 +188,35 @@ Theorem smarts_cx_examples :
   smarts_cx "C"%string (Some "|^1:5|"%string) = Err IncorrectSmarts /\ smarts_cx "[M]"%string (Some "|^1:0|"%string) = Err IncorrectSmarts /\
   smarts_cx "C"%string (Some "^1:0"%string) = smarts_full "C"%string.
 Proof. vm_compute. repeat split; reflexivity. Qed.
+
+(* ---------------------------------------------------------------------------------------------------------------- *)
+(* add_atom normalisation, from_atom without flags, copy *)
+
+(* g.add_atom('X') / g.add_atom(6) build the atom that smarts('[X]') / smarts('[#6]') builds *)
+Theorem add_atom_sym_is_smarts s :
+  add_atom_norm (ASym s) = build_atom (mkParsed None None None None [ESym s] None None None None None false).
+Proof.
+  unfold add_atom_norm, build_atom. cbn [p_element]. destruct (str_eqb s ["A"%char]); [reflexivity|]. destruct (str_eqb s ["M"%char]); [reflexivity|].
+  destruct (sym_number s); reflexivity.
+Qed.
+Theorem add_atom_num_is_smarts n :
+  add_atom_norm (ANum n) = build_atom (mkParsed None None None None [ENum n] None None None None None false).
+Proof. unfold add_atom_norm, build_atom. cbn [p_element]. destruct (valid_number n); reflexivity. Qed.
+
+(* g.add_atom(element atom): the query keeps element, charge, radical state and isotope (None / 0 = any) and nothing else *)
+Theorem add_atom_elem_spec a b :
+  exists r, (match add_atom_norm (AElem a) with Ok q => match_atom q b | Err e => Err e end) = Ok r /\
+    (r = true <-> la_num a = la_num b /\ la_chg a = la_chg b /\ la_rad a = la_rad b /\ iso_ok (la_iso a) (la_iso b)).
+Proof.
+  cbn [add_atom_norm]. unfold from_atom. cbn [match_atom].
+  destruct (match_q_spec (la_num a) (la_iso a) (mkQX (la_chg a) (la_rad a) [] [] [] [] [] false) b eq_refl) as [r [E S]].
+  exists r. split; [exact E|]. rewrite S. cbn [x_chg x_rad]. unfold tail_spec, tuple_ok, rings_ok, hyd_ok. cbn [x_nb x_hyb x_h x_het x_rings].
+  tauto.
+Qed.
+
+(* copy(): the comparison data are kept; the stereo mark and the masked flag survive a full copy only; copying is idempotent *)
+Theorem qcopy_spec full x :
+  fst (fst (qcopy full x)) = fst (fst x) /\
+  qcopy false x = (fst (fst x), None, false) /\
+  qcopy full (qcopy full x) = qcopy full x /\ qcopy false (qcopy true x) = qcopy false x.
+Proof. destruct x as [[q st] mk]. destruct full, q, st as [[]|], mk; repeat split; reflexivity. Qed.
